@@ -1,1 +1,1447 @@
-fn main() {}
+//! C18 — "the language server always converges to the latest document text" (DESIGN.md §3.1).
+//!
+//!   lspsim c18 [--tier quick|thorough] [--seed N] [--runs N] [--workers N]
+//!   lspsim replay <file>
+//!   lspsim show --seed N --index I        (print one generated run, for debugging)
+//!   lspsim digest [--runs N]              (determinism self-test: prints one digest line per run)
+
+use serde::{Deserialize, Serialize};
+use serde_json::{json, Value};
+use simcore::lsp::{self, Settle, Sys, UNLIMITED};
+use simcore::report::{self, Outcome, Violation};
+use simcore::{fnv, fnv_add, mix, par, Rng, Tier};
+use std::collections::{BTreeMap, BTreeSet};
+use std::path::{Path, PathBuf};
+
+const PROPERTY: &str = "C18";
+const STEP_CAP_BURST: u64 = 200_000;
+const STEP_CAP_IDLE: u64 = 10_000;
+const DOC_LETTERS: [&str; 3] = ["a", "b", "c"];
+
+// ------------------------------------------------------------------------------------------------ scenario
+
+#[derive(Serialize, Deserialize, Clone, Debug, PartialEq)]
+enum Ev {
+    Open { doc: usize, version: i64, tag: String, text: String },
+    Change { doc: usize, version: i64, tag: String, text: String },
+    Close { doc: usize },
+    Req { doc: usize, kind: String, line: u64, ch: u64 },
+}
+
+impl Ev {
+    fn doc(&self) -> usize {
+        match self {
+            Ev::Open { doc, .. } | Ev::Change { doc, .. } | Ev::Close { doc } | Ev::Req { doc, .. } => *doc,
+        }
+    }
+    fn short(&self) -> String {
+        match self {
+            Ev::Open { doc, version, text, .. } => {
+                format!("{}:open v{}[{}imp,{}err,{}B]", DOC_LETTERS[*doc], version, count_imports(text), count_errs(text), text.len())
+            }
+            Ev::Change { doc, version, text, .. } => {
+                format!("{}:change v{}[{}imp,{}err,{}B]", DOC_LETTERS[*doc], version, count_imports(text), count_errs(text), text.len())
+            }
+            Ev::Close { doc } => format!("{}:close", DOC_LETTERS[*doc]),
+            Ev::Req { doc, kind, .. } => format!("{}:{}", DOC_LETTERS[*doc], kind),
+        }
+    }
+}
+
+fn count_imports(t: &str) -> usize {
+    t.lines().filter(|l| l.starts_with("from ") || l.starts_with("import ")).count()
+}
+fn count_errs(t: &str) -> usize {
+    t.matches("= undefined_").count()
+}
+
+/// External events chosen by the scheduler.
+#[derive(Serialize, Deserialize, Clone, Debug, PartialEq)]
+enum Dec {
+    /// Make input readable up to the end of the `frames`-th next frame boundary plus `permille`/1000 of the following frame.
+    In { frames: u32, permille: u32 },
+    /// The consumer of stdout accepts `bytes` more bytes.
+    Out { bytes: u32 },
+}
+
+#[derive(Serialize, Deserialize, Clone, Debug)]
+struct Scenario {
+    hash_seed: u64,
+    /// project files on disk (relative path, content); static during the run
+    files: Vec<(String, String)>,
+    /// editor documents (relative paths)
+    docs: Vec<String>,
+    /// which documents import another *editor* document (their diagnostics depend on that document's state)
+    imports_open_doc: Vec<bool>,
+    /// which documents are imported by another editor document (the server republishes a dependency view for them)
+    imported_by_open_doc: Vec<bool>,
+    events: Vec<Ev>,
+}
+
+#[derive(Clone, Debug)]
+struct Strategy {
+    name: &'static str,
+    /// probability (permille) of choosing IN when both IN and OUT are enabled and the writer is blocked
+    p_in_blocked: u64,
+    /// probability (permille) of granting credit although the writer is not blocked
+    p_pregrant: u64,
+    out_max: u64,
+    p_multi_frame: u64,
+    p_partial: u64,
+}
+
+fn gen_strategy(rng: &mut Rng) -> Strategy {
+    let (name, p_in_blocked, p_pregrant) = match rng.below(6) {
+        0 => ("uniform", 500, 100),
+        1 => ("stalled-editor", 900 + rng.below(90), 0),
+        2 => ("burst-in", 1000, 0),
+        3 => ("drain-first", 100, 300),
+        4 => ("alternate", 700, 50),
+        _ => ("mixed", rng.range(200, 950), rng.below(200)),
+    };
+    let out_max = *rng.pick(&[24u64, 300, 2000, 6000, 16384]);
+    Strategy {
+        name,
+        p_in_blocked,
+        p_pregrant,
+        out_max,
+        p_multi_frame: *rng.pick(&[0u64, 100, 300]),
+        p_partial: *rng.pick(&[0u64, 100, 300]),
+    }
+}
+
+struct TextKnobs {
+    max_imports: u64,
+    err_menu: Vec<u64>,
+    broken_permille: u64,
+    truncate_permille: u64,
+    rich_decls: bool,
+}
+
+fn gen_text(rng: &mut Rng, k: &TextKnobs, tag: &str, v: i64, extra_import: Option<&str>, exports: Option<&str>) -> String {
+    let mut t = String::new();
+    for _ in 0..rng.below(3) {
+        t.push_str("# filler line\n");
+    }
+    let nimp = rng.below(k.max_imports + 1);
+    for i in 0..nimp {
+        t.push_str(&format!("from dep{i} import d{i}\n"));
+    }
+    if let Some(m) = extra_import {
+        t.push_str(&format!("from {m} import o_fn\n"));
+    }
+    let broken = rng.below(1000) < k.broken_permille;
+    let broken_kind = rng.below(3);
+    if k.rich_decls && rng.chance(1, 2) {
+        t.push_str(&format!("const K_{tag}: int = {v}\n"));
+    }
+    if broken && broken_kind == 0 {
+        t.push_str(&format!("def f_{tag}( -> int:\n    return {v}\n"));
+    } else {
+        t.push_str(&format!("def f_{tag}() -> int:\n    return {v}\n"));
+    }
+    if let Some(name) = exports {
+        t.push_str(&format!("pub def {name}() -> int:\n    return {v}\n"));
+    }
+    if k.rich_decls {
+        match rng.below(5) {
+            0 => t.push_str(&format!("model M_{tag}:\n    x: int\n")),
+            1 => t.push_str(&format!("class C_{tag}:\n    y: int\n\n    def get(self) -> int:\n        return self.y\n")),
+            2 => t.push_str(&format!("enum E_{tag}:\n    A\n    B\n")),
+            3 => t.push_str(&format!("type N_{tag} = newtype int\n")),
+            _ => {}
+        }
+    }
+    let nerr = *rng.pick(&k.err_menu);
+    if nerr > 0 {
+        t.push_str(&format!("def g_{tag}() -> None:\n"));
+        for i in 0..nerr {
+            t.push_str(&format!("    y{i} = undefined_{tag}_{i}\n"));
+        }
+    }
+    if broken && broken_kind == 1 {
+        t.push_str(&format!("def h_{tag}() -> int:\n    return 1 $ 2\n"));
+    }
+    if broken && broken_kind == 2 {
+        t.push_str(&format!("def h_{tag}() -> str:\n    return \"abc\n"));
+    }
+    if rng.below(1000) < k.truncate_permille && t.len() > 8 {
+        // "typing": a prefix of the text, cut at a char boundary (all ASCII here)
+        let mut cut = rng.range(1, t.len() as u64 - 1) as usize;
+        // never cut through an attribution tag: a prefix of `a_s2_v30` reads as the tag of another version (`a_s2_v3`)
+        let b = t.as_bytes();
+        let is_id = |c: u8| c.is_ascii_alphanumeric() || c == b'_';
+        let mut start = cut;
+        while start > 0 && is_id(b[start - 1]) {
+            start -= 1;
+        }
+        let mut end = cut;
+        while end < b.len() && is_id(b[end]) {
+            end += 1;
+        }
+        if end > cut && t[start..end].contains(tag) {
+            cut = start;
+        }
+        t.truncate(cut.max(1));
+    }
+    t
+}
+
+fn gen_scenario(seed: u64) -> (Scenario, Strategy) {
+    let mut rng = Rng::new(seed);
+    let hash_seed = rng.next();
+    let strategy = gen_strategy(&mut rng.fork("strategy"));
+    let mut r = rng.fork("workload");
+    let ndocs = match r.below(10) {
+        0..=5 => 1,
+        6..=8 => 2,
+        _ => 3,
+    };
+    let knobs = TextKnobs {
+        max_imports: *r.pick(&[0u64, 1, 2, 3, 4, 4]),
+        err_menu: match r.below(4) {
+            0 => vec![0, 1],
+            1 => vec![0, 1, 5, 40],
+            2 => vec![0, 1, 40, 90],
+            _ => vec![0, 5, 40, 90, 120],
+        },
+        broken_permille: *r.pick(&[0u64, 0, 120, 250]),
+        truncate_permille: *r.pick(&[0u64, 0, 0, 100]),
+        rich_decls: r.chance(1, 2),
+    };
+    let docs: Vec<String> = ["main.incn", "other.incn", "side.incn"][..ndocs].iter().map(|s| s.to_string()).collect();
+    let main_imports_other = ndocs >= 2 && r.chance(1, 2);
+    let mut files: Vec<(String, String)> = Vec::new();
+    for i in 0..4 {
+        files.push((format!("dep{i}.incn"), format!("pub def d{i}() -> int:\n    return {i}\n")));
+    }
+    // a nested dependency chain for dep3 (more await points in one handler)
+    files[3].1 = "from dep2 import d2\npub def d3() -> int:\n    return d2()\n".to_string();
+    if ndocs >= 2 {
+        files.push(("other.incn".into(), "pub def o_fn() -> int:\n    return 0\n".into()));
+    }
+    // per-document histories
+    let mut per_doc: Vec<Vec<Ev>> = Vec::new();
+    for d in 0..ndocs {
+        let mut evs = Vec::new();
+        let sessions = if r.chance(1, 3) { 2 } else { 1 };
+        for s in 1..=sessions {
+            let nver = match r.below(8) {
+                0..=2 => 2,
+                3..=4 => 3,
+                5 => 4,
+                6 => 6,
+                _ => 8,
+            };
+            // versions: usually 1..n, sometimes continuing from an offset, always increasing inside a session
+            let base = if r.chance(1, 5) { r.range(2, 40) as i64 } else { 1 };
+            for i in 0..nver {
+                let v = base + i;
+                let tag = format!("{}_s{}_v{}", DOC_LETTERS[d], s, v);
+                let extra = if d == 0 && main_imports_other { Some("other") } else { None };
+                let exports = if d == 1 { Some("o_fn") } else { None };
+                let text = gen_text(&mut r, &knobs, &tag, v, extra, exports);
+                if i == 0 {
+                    evs.push(Ev::Open { doc: d, version: v, tag, text });
+                } else {
+                    evs.push(Ev::Change { doc: d, version: v, tag, text });
+                }
+                if r.chance(1, 12) {
+                    let kind = *r.pick(&["hover", "completion", "definition"]);
+                    evs.push(Ev::Req { doc: d, kind: kind.to_string(), line: r.below(6), ch: r.below(8) });
+                }
+            }
+            if s < sessions || r.chance(1, 3) {
+                evs.push(Ev::Close { doc: d });
+            }
+        }
+        per_doc.push(evs);
+    }
+    // random merge preserving per-document order
+    let mut idx = vec![0usize; ndocs];
+    let mut events = Vec::new();
+    loop {
+        let live: Vec<usize> = (0..ndocs).filter(|d| idx[*d] < per_doc[*d].len()).collect();
+        if live.is_empty() {
+            break;
+        }
+        let d = *r.pick(&live);
+        // keep runs of the same document together most of the time (bursts of typing)
+        let burst = 1 + r.below(3) as usize;
+        for _ in 0..burst {
+            if idx[d] < per_doc[d].len() {
+                events.push(per_doc[d][idx[d]].clone());
+                idx[d] += 1;
+            }
+        }
+    }
+    let mut imports_open_doc = vec![false; ndocs];
+    let mut imported_by_open_doc = vec![false; ndocs];
+    if main_imports_other {
+        imports_open_doc[0] = true;
+        imported_by_open_doc[1] = true;
+    }
+    (Scenario { hash_seed, files, docs, imports_open_doc, imported_by_open_doc, events }, strategy)
+}
+
+// ------------------------------------------------------------------------------------------------ model (spec)
+
+#[derive(Clone, Debug, PartialEq)]
+enum DocFinal {
+    NeverOpened,
+    Closed,
+    Open { version: i64, tag: String, text: String },
+}
+
+/// The trivial reference model: uri -> (latest version sent since last open, its text) | closed.
+fn final_state(scn: &Scenario) -> Vec<DocFinal> {
+    let mut st = vec![DocFinal::NeverOpened; scn.docs.len()];
+    for e in &scn.events {
+        match e {
+            Ev::Open { doc, version, tag, text } | Ev::Change { doc, version, tag, text } => {
+                st[*doc] = DocFinal::Open { version: *version, tag: tag.clone(), text: text.clone() };
+            }
+            Ev::Close { doc } => st[*doc] = DocFinal::Closed,
+            Ev::Req { .. } => {}
+        }
+    }
+    st
+}
+
+/// Keep a history well-formed after events were dropped by the minimiser.
+fn normalise(events: &[Ev], ndocs: usize) -> Vec<Ev> {
+    let mut open = vec![false; ndocs];
+    let mut out = Vec::new();
+    for e in events {
+        match e.clone() {
+            Ev::Open { doc, version, tag, text } | Ev::Change { doc, version, tag, text } => {
+                if open[doc] {
+                    out.push(Ev::Change { doc, version, tag, text });
+                } else {
+                    open[doc] = true;
+                    out.push(Ev::Open { doc, version, tag, text });
+                }
+            }
+            Ev::Close { doc } => {
+                if open[doc] {
+                    open[doc] = false;
+                    out.push(Ev::Close { doc });
+                }
+            }
+            r @ Ev::Req { .. } => out.push(r),
+        }
+    }
+    out
+}
+
+#[derive(Clone, Debug)]
+struct Probe {
+    doc: usize,
+    kind: &'static str,
+    line: u64,
+    ch: u64,
+}
+
+fn probe_plan(scn: &Scenario, fin: &[DocFinal]) -> Vec<Probe> {
+    let mut plan = Vec::new();
+    for (d, f) in fin.iter().enumerate() {
+        let _ = scn;
+        match f {
+            DocFinal::Open { text, .. } => {
+                let mut n = 0;
+                for (i, l) in text.lines().enumerate() {
+                    let is_decl = ["const ", "def ", "pub def ", "model ", "class ", "enum ", "type ", "trait "]
+                        .iter()
+                        .any(|k| l.starts_with(k));
+                    if is_decl && n < 6 {
+                        n += 1;
+                        plan.push(Probe { doc: d, kind: "hover", line: i as u64, ch: 1 });
+                        plan.push(Probe { doc: d, kind: "definition", line: i as u64, ch: 1 });
+                    }
+                }
+                for i in [0u64, 2, 5] {
+                    plan.push(Probe { doc: d, kind: "hover", line: i, ch: 0 });
+                }
+                plan.push(Probe { doc: d, kind: "completion", line: 0, ch: 0 });
+            }
+            DocFinal::Closed | DocFinal::NeverOpened => {
+                for i in [0u64, 1, 2, 3, 5] {
+                    plan.push(Probe { doc: d, kind: "hover", line: i, ch: 1 });
+                }
+                plan.push(Probe { doc: d, kind: "definition", line: 1, ch: 1 });
+                plan.push(Probe { doc: d, kind: "completion", line: 0, ch: 0 });
+            }
+        }
+    }
+    plan
+}
+
+// ------------------------------------------------------------------------------------------------ execution
+
+trait Chooser {
+    /// `in_left`: unreleased input remains; `blocked`: the stdout writer is stalled.
+    fn choose(&mut self, in_left: bool, blocked: bool) -> Dec;
+}
+
+struct RandomChooser {
+    rng: Rng,
+    st: Strategy,
+}
+
+impl Chooser for RandomChooser {
+    fn choose(&mut self, in_left: bool, blocked: bool) -> Dec {
+        let want_in = if in_left && blocked {
+            self.rng.below(1000) < self.st.p_in_blocked
+        } else if in_left {
+            !(self.rng.below(1000) < self.st.p_pregrant)
+        } else {
+            false
+        };
+        if want_in {
+            let frames = if self.rng.below(1000) < self.st.p_multi_frame { self.rng.range(2, 5) as u32 } else { 1 };
+            if self.rng.below(1000) < self.st.p_partial {
+                Dec::In { frames: frames - 1, permille: self.rng.range(1, 999) as u32 }
+            } else {
+                Dec::In { frames, permille: 0 }
+            }
+        } else {
+            Dec::Out { bytes: self.rng.range(1, self.st.out_max) as u32 }
+        }
+    }
+}
+
+struct ReplayChooser {
+    decs: Vec<Dec>,
+    pos: usize,
+}
+
+impl Chooser for ReplayChooser {
+    fn choose(&mut self, in_left: bool, _blocked: bool) -> Dec {
+        while self.pos < self.decs.len() {
+            let d = self.decs[self.pos].clone();
+            self.pos += 1;
+            match d {
+                Dec::In { .. } if !in_left => continue, // not enabled any more (events were dropped): skip
+                _ => return d,
+            }
+        }
+        // trace exhausted: deterministic default — deliver everything, then drain
+        if in_left {
+            Dec::In { frames: u32::MAX, permille: 0 }
+        } else {
+            Dec::Out { bytes: u32::MAX }
+        }
+    }
+}
+
+#[derive(Default, Clone, Debug)]
+struct Reach {
+    in_while_blocked: u64,
+    stalls: u64,
+    short_reads: u64,
+    short_writes: u64,
+    partial_frames: u64,
+    multi_frame: u64,
+    decisions: u64,
+    steps: u64,
+}
+
+struct RunOut {
+    decisions: Vec<Dec>,
+    frames: Vec<Value>,
+    /// probe answers aligned with the plan (None = unanswered)
+    answers: Vec<Option<Value>>,
+    /// mid-burst requests left unanswered
+    unanswered_reqs: u64,
+    dead: Option<String>,
+    stuck: Option<String>,
+    reach: Reach,
+}
+
+fn uri_of(dir: &Path, rel: &str) -> String {
+    format!("file://{}/{}", dir.display(), rel)
+}
+
+fn write_project(dir: &Path, scn: &Scenario) {
+    let _ = std::fs::remove_dir_all(dir);
+    if let Err(e) = std::fs::create_dir_all(dir) {
+        simcore::harness_error(&format!("mkdir {}: {e}", dir.display()));
+    }
+    for (rel, content) in &scn.files {
+        let p = dir.join(rel);
+        if let Some(parent) = p.parent() {
+            let _ = std::fs::create_dir_all(parent);
+        }
+        if let Err(e) = std::fs::write(&p, content) {
+            simcore::harness_error(&format!("write {}: {e}", p.display()));
+        }
+    }
+}
+
+fn ev_message(dir: &Path, scn: &Scenario, e: &Ev, req_id: i64) -> Value {
+    match e {
+        Ev::Open { doc, version, text, .. } => lsp::did_open(&uri_of(dir, &scn.docs[*doc]), *version, text),
+        Ev::Change { doc, version, text, .. } => lsp::did_change(&uri_of(dir, &scn.docs[*doc]), *version, text),
+        Ev::Close { doc } => lsp::did_close(&uri_of(dir, &scn.docs[*doc])),
+        Ev::Req { doc, kind, line, ch } => probe_message(dir, scn, &Probe { doc: *doc, kind: kind_static(kind), line: *line, ch: *ch }, req_id),
+    }
+}
+
+fn kind_static(k: &str) -> &'static str {
+    match k {
+        "hover" => "hover",
+        "definition" => "definition",
+        _ => "completion",
+    }
+}
+
+fn probe_message(dir: &Path, scn: &Scenario, p: &Probe, id: i64) -> Value {
+    let uri = uri_of(dir, &scn.docs[p.doc]);
+    match p.kind {
+        "hover" => lsp::hover(id, &uri, p.line, p.ch),
+        "definition" => lsp::definition(id, &uri, p.line, p.ch),
+        _ => lsp::completion(id, &uri, p.line, p.ch),
+    }
+}
+
+/// Run the concurrent, fault-injected execution. The project tree must already be on disk.
+fn execute(scn: &Scenario, chooser: &mut dyn Chooser, dir: &Path, plan: &[Probe]) -> RunOut {
+    let mut sys = Sys::new(None);
+    let mut out = RunOut {
+        decisions: Vec::new(),
+        frames: Vec::new(),
+        answers: vec![None; plan.len()],
+        unanswered_reqs: 0,
+        dead: None,
+        stuck: None,
+        reach: Reach::default(),
+    };
+    if let Err(e) = sys.handshake() {
+        out.dead = Some(e);
+        return out;
+    }
+    // ---- burst: all client messages are queued; the scheduler decides when they become readable
+    let mut frame_ends: Vec<usize> = Vec::new();
+    let mut total = 0usize;
+    let mut req_ids: Vec<i64> = Vec::new();
+    for (i, e) in scn.events.iter().enumerate() {
+        let id = 5000 + i as i64;
+        if matches!(e, Ev::Req { .. }) {
+            req_ids.push(id);
+        }
+        let bytes = lsp::frame(&ev_message(dir, scn, e, id));
+        total += bytes.len();
+        frame_ends.push(total);
+        sys.push_input(&bytes);
+    }
+    let mut guard = 0u64;
+    loop {
+        match sys.settle(STEP_CAP_BURST) {
+            Settle::Quiescent => {}
+            Settle::Dead(d) => {
+                out.dead = Some(d);
+                break;
+            }
+            Settle::OutOfSteps => {
+                out.stuck = Some("serve() kept waking itself during the burst (step cap)".into());
+                break;
+            }
+        }
+        let in_left = sys.unreleased_in() > 0;
+        let blocked = sys.out_blocked();
+        if !in_left && !blocked {
+            break;
+        }
+        guard += 1;
+        if guard > 100_000 {
+            simcore::harness_error("burst loop exceeded 100000 decisions");
+        }
+        let d = chooser.choose(in_left, blocked);
+        match &d {
+            Dec::In { frames, permille } => {
+                let released = total - sys.unreleased_in();
+                // index of the first frame boundary strictly after `released`
+                let first = frame_ends.partition_point(|e| *e <= released);
+                let mut target = released;
+                if *frames > 0 {
+                    let k = (first + (*frames as usize).min(frame_ends.len()) - 1).min(frame_ends.len() - 1);
+                    target = frame_ends[k];
+                }
+                if *permille > 0 {
+                    let nb = frame_ends.partition_point(|e| *e <= target);
+                    if nb < frame_ends.len() {
+                        let start = target;
+                        let len = frame_ends[nb] - start;
+                        target = start + (len * (*permille as usize) / 1000).max(1);
+                        out.reach.partial_frames += 1;
+                    }
+                }
+                if *frames > 1 {
+                    out.reach.multi_frame += 1;
+                }
+                let n = target.saturating_sub(released).max(1);
+                if blocked {
+                    out.reach.in_while_blocked += 1;
+                }
+                sys.release_in(n);
+            }
+            Dec::Out { bytes } => {
+                let n = if *bytes == u32::MAX { UNLIMITED } else { *bytes as usize };
+                sys.grant_out(n);
+            }
+        }
+        out.decisions.push(d);
+    }
+    out.reach.decisions = out.decisions.len() as u64;
+    // ---- faults stop: unlimited credit, run to idle
+    if out.dead.is_none() && out.stuck.is_none() {
+        sys.grant_out(UNLIMITED);
+        match sys.settle(STEP_CAP_IDLE) {
+            Settle::Quiescent => {}
+            Settle::Dead(d) => out.dead = Some(d),
+            Settle::OutOfSteps => out.stuck = Some(format!("not idle within {STEP_CAP_IDLE} steps after faults stopped")),
+        }
+    }
+    out.frames.extend(sys.drain_frames());
+    // ---- probes
+    if out.dead.is_none() && out.stuck.is_none() {
+        for (i, p) in plan.iter().enumerate() {
+            let m = probe_message(dir, scn, p, 9000 + i as i64);
+            sys.push_input(&lsp::frame(&m));
+        }
+        let n = sys.unreleased_in();
+        sys.release_in(n);
+        match sys.settle(STEP_CAP_IDLE) {
+            Settle::Quiescent => {}
+            Settle::Dead(d) => out.dead = Some(d),
+            Settle::OutOfSteps => out.stuck = Some(format!("probes not answered within {STEP_CAP_IDLE} steps")),
+        }
+        let frames = sys.drain_frames();
+        for f in &frames {
+            if let Some(id) = f["id"].as_i64() {
+                if id >= 9000 && ((id - 9000) as usize) < plan.len() && f.get("method").is_none() {
+                    out.answers[(id - 9000) as usize] = Some(f.get("result").cloned().unwrap_or(json!({"error": f["error"]})));
+                }
+            }
+        }
+        out.frames.extend(frames);
+    }
+    let answered: BTreeSet<i64> =
+        out.frames.iter().filter(|f| f.get("method").is_none()).filter_map(|f| f["id"].as_i64()).collect();
+    out.unanswered_reqs = req_ids.iter().filter(|id| !answered.contains(id)).count() as u64;
+    {
+        let pi = sys.pin.borrow();
+        let po = sys.pout.borrow();
+        out.reach.stalls = po.stalls;
+        out.reach.short_writes = po.short_writes;
+        out.reach.short_reads = pi.short_reads;
+    }
+    out.reach.steps = sys.steps;
+    out
+}
+
+/// What a fresh, sequential server (concurrency 1, no faults) that only ever saw the final state answers.
+struct Reference {
+    answers: Vec<Option<Value>>,
+    /// per doc: diagnostics published right after its own didOpen (multiset as sorted strings)
+    own_diags: Vec<Option<Vec<String>>>,
+    /// per doc: does the latest text lex and parse (decided by the real server: a parseable text gets completions with its symbols)
+    error: Option<String>,
+}
+
+fn diag_multiset(d: &Value) -> Vec<String> {
+    let mut v: Vec<String> = d.as_array().map(|a| a.iter().map(|x| x.to_string()).collect()).unwrap_or_default();
+    v.sort();
+    v
+}
+
+fn reference(scn: &Scenario, fin: &[DocFinal], dir: &Path, plan: &[Probe]) -> Reference {
+    let mut r = Reference { answers: vec![None; plan.len()], own_diags: vec![None; fin.len()], error: None };
+    let mut sys = Sys::new(Some(1));
+    if let Err(e) = sys.handshake() {
+        r.error = Some(e);
+        return r;
+    }
+    // imported documents first, so that a document importing them sees their final text
+    let mut order: Vec<usize> = (0..fin.len()).collect();
+    order.sort_by_key(|d| (scn.imports_open_doc[*d], *d));
+    for d in order {
+        if let DocFinal::Open { version, text, .. } = &fin[d] {
+            let uri = uri_of(dir, &scn.docs[d]);
+            match sys.deliver_now(&lsp::did_open(&uri, *version, text), STEP_CAP_IDLE) {
+                Settle::Quiescent => {}
+                other => {
+                    r.error = Some(format!("reference run: {other:?}"));
+                    return r;
+                }
+            }
+            for f in sys.drain_frames() {
+                if f["method"] == "textDocument/publishDiagnostics" && f["params"]["uri"] == uri.as_str() {
+                    r.own_diags[d] = Some(diag_multiset(&f["params"]["diagnostics"]));
+                }
+            }
+        }
+    }
+    for (i, p) in plan.iter().enumerate() {
+        let m = probe_message(dir, scn, p, 9000 + i as i64);
+        match sys.deliver_now(&m, STEP_CAP_IDLE) {
+            Settle::Quiescent => {}
+            other => {
+                r.error = Some(format!("reference probes: {other:?}"));
+                return r;
+            }
+        }
+        for f in sys.drain_frames() {
+            if f["id"].as_i64() == Some(9000 + i as i64) && f.get("method").is_none() {
+                r.answers[i] = Some(f.get("result").cloned().unwrap_or(json!({"error": f["error"]})));
+            }
+        }
+    }
+    r
+}
+
+// ------------------------------------------------------------------------------------------------ oracles
+
+#[derive(Clone, Debug, PartialEq)]
+struct Finding {
+    class: String,
+    doc: Option<usize>,
+    detail: String,
+}
+
+/// Extract attribution tags (`a_s1_v3`) from any text: `<letter>_s<digits>_v<digits>` preceded by `_`.
+fn tags_in(s: &str) -> BTreeSet<String> {
+    let b = s.as_bytes();
+    let mut out = BTreeSet::new();
+    let mut i = 0;
+    while i + 6 < b.len() {
+        if b[i] == b'_' && (b[i + 1] == b'a' || b[i + 1] == b'b' || b[i + 1] == b'c') && b[i + 2] == b'_' && b[i + 3] == b's' {
+            let mut j = i + 4;
+            let d1 = j;
+            while j < b.len() && b[j].is_ascii_digit() {
+                j += 1;
+            }
+            if j > d1 && j + 1 < b.len() && b[j] == b'_' && b[j + 1] == b'v' {
+                let mut k = j + 2;
+                let d2 = k;
+                while k < b.len() && b[k].is_ascii_digit() {
+                    k += 1;
+                }
+                if k > d2 {
+                    out.insert(s[i + 1..k].to_string());
+                    i = k;
+                    continue;
+                }
+            }
+        }
+        i += 1;
+    }
+    out
+}
+
+fn judge(scn: &Scenario, fin: &[DocFinal], plan: &[Probe], run: &RunOut, rf: &Reference, dir: &Path) -> Vec<Finding> {
+    let mut f = Vec::new();
+    if let Some(d) = &run.dead {
+        f.push(Finding { class: "crash".into(), doc: None, detail: d.clone() });
+        return f;
+    }
+    if let Some(s) = &run.stuck {
+        f.push(Finding { class: "no-convergence".into(), doc: None, detail: s.clone() });
+        return f;
+    }
+    if let Some(e) = &rf.error {
+        // the sequential reference itself crashed: the server cannot even handle the final state alone
+        f.push(Finding { class: "crash".into(), doc: None, detail: format!("sequential reference server: {e}") });
+        return f;
+    }
+    let unanswered = run.answers.iter().filter(|a| a.is_none()).count();
+    if unanswered > 0 || run.unanswered_reqs > 0 {
+        f.push(Finding {
+            class: "no-convergence".into(),
+            doc: None,
+            detail: format!("{} probe(s) and {} mid-burst request(s) never answered although the server is idle", unanswered, run.unanswered_reqs),
+        });
+        return f;
+    }
+    for (d, st) in fin.iter().enumerate() {
+        let letter = DOC_LETTERS[d];
+        let idxs: Vec<usize> = (0..plan.len()).filter(|i| plan[*i].doc == d).collect();
+        let got: Vec<&Value> = idxs.iter().map(|i| run.answers[*i].as_ref().unwrap_or(&Value::Null)).collect();
+        let exp: Vec<&Value> = idxs.iter().map(|i| rf.answers[*i].as_ref().unwrap_or(&Value::Null)).collect();
+        let got_s = got.iter().map(|v| v.to_string()).collect::<Vec<_>>().join("\n");
+        match st {
+            DocFinal::NeverOpened => {}
+            DocFinal::Closed => {
+                if got.iter().any(|v| !v.is_null()) {
+                    let tags: Vec<String> = tags_in(&got_s).into_iter().collect();
+                    f.push(Finding {
+                        class: "resurrected-after-close".into(),
+                        doc: Some(d),
+                        detail: format!("document {letter} was closed last, yet the idle server answers with content (from {:?})", tags),
+                    });
+                }
+            }
+            DocFinal::Open { version, tag, .. } => {
+                let found = tags_in(&got_s);
+                let ref_s = exp.iter().map(|v| v.to_string()).collect::<Vec<_>>().join("\n");
+                let latest_parses = tags_in(&ref_s).contains(tag);
+                let stale: Vec<&String> = found.iter().filter(|t| *t != tag).collect();
+                if !stale.is_empty() {
+                    let class = if latest_parses { "stale-overwrite" } else { "stale-after-unparsable" };
+                    f.push(Finding {
+                        class: class.into(),
+                        doc: Some(d),
+                        detail: format!("document {letter}: latest sent is {tag} (v{version}, parses={latest_parses}) but the idle server answers from {:?}", stale),
+                    });
+                } else if latest_parses && !found.contains(tag) {
+                    f.push(Finding {
+                        class: "latest-not-served".into(),
+                        doc: Some(d),
+                        detail: format!("document {letter}: latest sent is {tag}; the idle server's answers do not contain it (answers: {})", trunc(&got_s, 160)),
+                    });
+                } else if got_s != ref_s {
+                    let k = (0..got.len()).find(|k| got[*k] != exp[*k]).unwrap_or(0);
+                    f.push(Finding {
+                        class: "mixed-state".into(),
+                        doc: Some(d),
+                        detail: format!(
+                            "document {letter} ({tag}): answer to {} at {}:{} differs from a fresh server given only the latest text: got {} expected {}",
+                            plan[idxs[k]].kind,
+                            plan[idxs[k]].line,
+                            plan[idxs[k]].ch,
+                            trunc(&got[k].to_string(), 200),
+                            trunc(&exp[k].to_string(), 200)
+                        ),
+                    });
+                }
+                // ---- diagnostics of the latest version
+                let uri = uri_of(dir, &scn.docs[d]);
+                let pubs: Vec<&Value> = run
+                    .frames
+                    .iter()
+                    .filter(|fr| fr["method"] == "textDocument/publishDiagnostics" && fr["params"]["uri"] == uri.as_str())
+                    .filter(|fr| fr["params"]["version"].as_i64() == Some(*version))
+                    .collect();
+                match pubs.last() {
+                    None => f.push(Finding {
+                        class: "diag-missing".into(),
+                        doc: Some(d),
+                        detail: format!("document {letter}: no diagnostics were ever published for the latest version v{version} ({tag})"),
+                    }),
+                    Some(last) => {
+                        let ds = last["params"]["diagnostics"].to_string();
+                        let foreign: Vec<String> = tags_in(&ds).into_iter().filter(|t| t != tag).collect();
+                        let got_ms = diag_multiset(&last["params"]["diagnostics"]);
+                        if !foreign.is_empty() {
+                            f.push(Finding {
+                                class: "diag-wrong-text".into(),
+                                doc: Some(d),
+                                detail: format!("document {letter}: last diagnostics published for v{version} ({tag}) were computed from {:?}", foreign),
+                            });
+                        } else if !scn.imports_open_doc[d] {
+                            let own = rf.own_diags[d].clone().unwrap_or_default();
+                            let dep_view_ok = scn.imported_by_open_doc[d] && latest_parses && got_ms.is_empty();
+                            if got_ms != own && !dep_view_ok {
+                                f.push(Finding {
+                                    class: "diag-mismatch".into(),
+                                    doc: Some(d),
+                                    detail: format!(
+                                        "document {letter}: last diagnostics for v{version} ({tag}) = {} item(s), a fresh analysis of that text gives {} item(s)",
+                                        got_ms.len(),
+                                        own.len()
+                                    ),
+                                });
+                            }
+                        }
+                    }
+                }
+            }
+        }
+    }
+    f
+}
+
+fn trunc(s: &str, n: usize) -> String {
+    if s.len() <= n {
+        s.to_string()
+    } else {
+        let mut e = n;
+        while !s.is_char_boundary(e) {
+            e -= 1;
+        }
+        format!("{}…", &s[..e])
+    }
+}
+
+// ------------------------------------------------------------------------------------------------ one run
+
+struct RunReport {
+    findings: Vec<Finding>,
+    decisions: Vec<Dec>,
+    reach: Reach,
+    interleaving_fp: u64,
+    publish_out_of_order: bool,
+    summary: Value,
+}
+
+/// Execute + reference + judge, inside a fresh simulated process instance. Pure function of (scenario, decisions/strategy).
+fn run_once(scn: Scenario, mode: RunMode, dir: PathBuf) -> Result<RunReport, String> {
+    let hash_seed = scn.hash_seed;
+    par::instance(hash_seed, None, move || {
+        write_project(&dir, &scn);
+        let fin = final_state(&scn);
+        let plan = probe_plan(&scn, &fin);
+        let run = match mode {
+            RunMode::Random(seed, st) => {
+                let mut c = RandomChooser { rng: Rng::new(mix(seed, "schedule", 0)), st };
+                execute(&scn, &mut c, &dir, &plan)
+            }
+            RunMode::Replay(decs) => {
+                let mut c = ReplayChooser { decs, pos: 0 };
+                execute(&scn, &mut c, &dir, &plan)
+            }
+        };
+        let rf = reference(&scn, &fin, &dir, &plan);
+        let findings = judge(&scn, &fin, &plan, &run, &rf, &dir);
+        // interleaving fingerprint: the pipe-event sequence and the sequence of server outputs
+        let mut h = fnv(b"ilv");
+        for d in &run.decisions {
+            match d {
+                Dec::In { frames, permille } => h = fnv_add(h, format!("I{frames}.{permille}").as_bytes()),
+                Dec::Out { bytes } => h = fnv_add(h, format!("O{bytes}").as_bytes()),
+            }
+        }
+        let mut order = Vec::new();
+        let mut ooo = false;
+        let mut lastv: BTreeMap<String, i64> = BTreeMap::new();
+        for fr in &run.frames {
+            if fr["method"] == "textDocument/publishDiagnostics" {
+                let u = fr["params"]["uri"].as_str().unwrap_or("").rsplit('/').next().unwrap_or("").to_string();
+                let v = fr["params"]["version"].as_i64().unwrap_or(-1);
+                let n = fr["params"]["diagnostics"].as_array().map(|a| a.len()).unwrap_or(0);
+                if v >= 0 {
+                    if let Some(p) = lastv.get(&u) {
+                        if v < *p {
+                            ooo = true;
+                        }
+                    }
+                    lastv.insert(u.clone(), v);
+                }
+                h = fnv_add(h, format!("P{u}.{v}.{n}").as_bytes());
+                order.push(format!("{u}@{v}#{n}"));
+            } else if let Some(id) = fr["id"].as_i64() {
+                h = fnv_add(h, format!("R{id}").as_bytes());
+            }
+        }
+        let summary = json!({
+            "events": scn.events.iter().map(|e| e.short()).collect::<Vec<_>>(),
+            "pipe_events": run.decisions.len(),
+            "publishes": order,
+            "findings": findings.iter().map(|x| format!("{}: {}", x.class, x.detail)).collect::<Vec<_>>(),
+        });
+        RunReport { findings, decisions: run.decisions, reach: run.reach, interleaving_fp: h, publish_out_of_order: ooo, summary }
+    })
+}
+
+#[derive(Clone)]
+enum RunMode {
+    Random(u64, Strategy),
+    Replay(Vec<Dec>),
+}
+
+// ------------------------------------------------------------------------------------------------ minimisation
+
+fn has_class(r: &Result<RunReport, String>, class: &str) -> bool {
+    match r {
+        Ok(rep) => rep.findings.iter().any(|f| f.class == class),
+        Err(_) => class == "crash",
+    }
+}
+
+/// Lighter variants of one text, most aggressive first.
+fn lighter_texts(t: &str) -> Vec<String> {
+    let lines: Vec<&str> = t.lines().collect();
+    let mut out = Vec::new();
+    let keep = |pred: &dyn Fn(&str) -> bool| -> String {
+        let mut s = lines.iter().filter(|l| pred(l)).cloned().collect::<Vec<_>>().join("\n");
+        s.push('\n');
+        s
+    };
+    // no filler, no error lines, no imports
+    out.push(keep(&|l| !l.starts_with("# filler") && !l.contains("= undefined_") && !l.starts_with("def g_") && !l.starts_with("from dep")));
+    out.push(keep(&|l| !l.contains("= undefined_") && !l.starts_with("def g_")));
+    out.push(keep(&|l| !l.starts_with("from dep")));
+    out.push(keep(&|l| !l.starts_with("# filler")));
+    // halve the error lines
+    let nerr = lines.iter().filter(|l| l.contains("= undefined_")).count();
+    if nerr > 1 {
+        let mut seen = 0;
+        let mut s = String::new();
+        for l in &lines {
+            if l.contains("= undefined_") {
+                seen += 1;
+                if seen > nerr / 2 {
+                    continue;
+                }
+            }
+            s.push_str(l);
+            s.push('\n');
+        }
+        out.push(s);
+    }
+    // drop one import at a time (the last one)
+    if let Some(pos) = lines.iter().rposition(|l| l.starts_with("from dep")) {
+        let mut s = String::new();
+        for (i, l) in lines.iter().enumerate() {
+            if i != pos {
+                s.push_str(l);
+                s.push('\n');
+            }
+        }
+        out.push(s);
+    }
+    out.retain(|x| x != t && x.trim().len() > 0);
+    out.dedup();
+    out
+}
+
+fn minimise(mut scn: Scenario, mut decs: Vec<Dec>, class: &str, dir: &Path, budget: &mut u32) -> (Scenario, Vec<Dec>) {
+    let ndocs = scn.docs.len();
+    let mut try_candidate = |s: &Scenario, d: &Vec<Dec>, budget: &mut u32| -> bool {
+        if *budget == 0 {
+            return false;
+        }
+        *budget -= 1;
+        has_class(&run_once(s.clone(), RunMode::Replay(d.clone()), dir.to_path_buf()), class)
+    };
+    let mut progress = true;
+    while progress && *budget > 0 {
+        progress = false;
+        // 1. drop all events of one document
+        for d in 0..ndocs {
+            if scn.events.iter().any(|e| e.doc() == d) && scn.events.iter().any(|e| e.doc() != d) {
+                let mut c = scn.clone();
+                c.events = normalise(&scn.events.iter().filter(|e| e.doc() != d).cloned().collect::<Vec<_>>(), ndocs);
+                if try_candidate(&c, &decs, budget) {
+                    scn = c;
+                    progress = true;
+                }
+            }
+        }
+        // 2. drop single events, last to first
+        let mut i = scn.events.len();
+        while i > 0 {
+            i -= 1;
+            if scn.events.len() <= 1 {
+                break;
+            }
+            let mut c = scn.clone();
+            let mut evs = scn.events.clone();
+            evs.remove(i);
+            c.events = normalise(&evs, ndocs);
+            if c.events.len() < scn.events.len() && try_candidate(&c, &decs, budget) {
+                scn = c;
+                progress = true;
+                i = i.min(scn.events.len());
+            }
+        }
+        // 3. drop decisions, last to first; then try the empty trace (pure default schedule)
+        if !decs.is_empty() {
+            let empty: Vec<Dec> = Vec::new();
+            if try_candidate(&scn, &empty, budget) {
+                decs = empty;
+                progress = true;
+            }
+        }
+        let mut j = decs.len();
+        while j > 0 {
+            j -= 1;
+            let mut c = decs.clone();
+            c.remove(j);
+            if try_candidate(&scn, &c, budget) {
+                decs = c;
+                progress = true;
+            }
+        }
+        // 4. lighter texts
+        for i in 0..scn.events.len() {
+            let cur = match &scn.events[i] {
+                Ev::Open { text, .. } | Ev::Change { text, .. } => text.clone(),
+                _ => continue,
+            };
+            for cand in lighter_texts(&cur) {
+                let mut c = scn.clone();
+                match &mut c.events[i] {
+                    Ev::Open { text, .. } | Ev::Change { text, .. } => *text = cand,
+                    _ => {}
+                }
+                if try_candidate(&c, &decs, budget) {
+                    scn = c;
+                    progress = true;
+                    break;
+                }
+            }
+        }
+        // 5. unused project files
+        let used: String = scn.events.iter().map(|e| match e {
+            Ev::Open { text, .. } | Ev::Change { text, .. } => text.clone(),
+            _ => String::new(),
+        }).collect::<Vec<_>>().join("\n");
+        let before = scn.files.len();
+        let mut c = scn.clone();
+        c.files.retain(|(p, _)| {
+            let stem = p.trim_end_matches(".incn");
+            used.contains(&format!("from {stem} ")) || (stem == "dep2" && used.contains("from dep3 "))
+        });
+        if c.files.len() < before && try_candidate(&c, &decs, budget) {
+            scn = c;
+            progress = true;
+        }
+    }
+    (scn, decs)
+}
+
+fn shape_of(scn: &Scenario) -> String {
+    let mut parts = Vec::new();
+    for d in 0..scn.docs.len() {
+        let s: Vec<&str> = scn
+            .events
+            .iter()
+            .filter(|e| e.doc() == d)
+            .map(|e| match e {
+                Ev::Open { .. } => "O",
+                Ev::Change { .. } => "C",
+                Ev::Close { .. } => "X",
+                Ev::Req { .. } => "R",
+            })
+            .collect();
+        if !s.is_empty() {
+            parts.push(format!("{}:{}", DOC_LETTERS[d], s.join("")));
+        }
+    }
+    parts.join(";")
+}
+
+// ------------------------------------------------------------------------------------------------ batch driver
+
+fn budget_runs(t: Tier) -> u64 {
+    match t {
+        Tier::Quick => 24_000,
+        Tier::Thorough => 1_600_000,
+    }
+}
+
+fn worker_main(args: &[String], spec: par::WorkerSpec) {
+    par::install_quiet_panic_hook();
+    let root = simcore::root_seed(args);
+    let runs: u64 = simcore::arg_value(args, "--runs").and_then(|s| s.parse().ok()).unwrap_or(budget_runs(simcore::tier(args)));
+    let fp_dir = simcore::arg_value(args, "--fp-dir").unwrap_or_default();
+    let scratch = lsp::scratch_root(&format!("c18-w{}", spec.index));
+    let dir = scratch.join("p");
+    let mut viol: Vec<Value> = Vec::new();
+    let mut counters: BTreeMap<String, u64> = BTreeMap::new();
+    let mut fps: Vec<u64> = Vec::new();
+    let mut workload_fps: BTreeSet<u64> = BTreeSet::new();
+    let mut samples: Vec<Value> = Vec::new();
+    let mut done = 0u64;
+    let mut bump = |c: &mut BTreeMap<String, u64>, k: &str, n: u64| *c.entry(k.to_string()).or_insert(0) += n;
+    let mut i = spec.index;
+    while i < runs {
+        let seed = mix(root, PROPERTY, i);
+        let (scn, st) = gen_scenario(seed);
+        let stname = st.name;
+        let wfp = fnv(shape_of(&scn).as_bytes());
+        let rep = run_once(scn, RunMode::Random(seed, st), dir.clone());
+        done += 1;
+        match rep {
+            Ok(rep) => {
+                let overlap = rep.reach.in_while_blocked > 0;
+                bump(&mut counters, "runs_with_handler_overlap", overlap as u64);
+                bump(&mut counters, "runs_with_publish_order_ne_version_order", rep.publish_out_of_order as u64);
+                bump(&mut counters, "fault_stalled_consumer_fired", rep.reach.stalls);
+                bump(&mut counters, "fault_short_write_fired", rep.reach.short_writes);
+                bump(&mut counters, "fault_short_read_fired", rep.reach.short_reads);
+                bump(&mut counters, "fault_partial_frame_delivered", rep.reach.partial_frames);
+                bump(&mut counters, "fault_multi_frame_burst_delivered", rep.reach.multi_frame);
+                bump(&mut counters, "input_released_while_writer_stalled", rep.reach.in_while_blocked);
+                bump(&mut counters, "pipe_events", rep.reach.decisions);
+                bump(&mut counters, "executor_steps", rep.reach.steps);
+                bump(&mut counters, &format!("strategy_{stname}"), 1);
+                if overlap {
+                    fps.push(rep.interleaving_fp);
+                    workload_fps.insert(wfp);
+                }
+                if samples.len() < 2 && overlap {
+                    samples.push(json!({"run_index": i, "seed": seed, "strategy": stname, "trace": rep.summary}));
+                }
+                for f in &rep.findings {
+                    viol.push(json!({"index": i, "seed": seed, "class": f.class, "detail": f.detail}));
+                }
+            }
+            Err(p) => {
+                viol.push(json!({"index": i, "seed": seed, "class": "crash", "detail": format!("harness thread panicked: {p}")}));
+            }
+        }
+        i += spec.count;
+    }
+    let _ = std::fs::remove_dir_all(&scratch);
+    // interleaving fingerprints go to a side file (they can be millions)
+    if !fp_dir.is_empty() {
+        let mut bytes = Vec::with_capacity(fps.len() * 8);
+        for f in &fps {
+            bytes.extend_from_slice(&f.to_le_bytes());
+        }
+        let _ = std::fs::write(Path::new(&fp_dir).join(format!("fp-{}.bin", spec.index)), bytes);
+    }
+    par::emit_worker_result(&json!({
+        "runs": done,
+        "violations": viol,
+        "counters": counters,
+        "workloads": workload_fps.iter().map(|x| format!("{x:x}")).collect::<Vec<_>>(),
+        "samples": samples,
+    }));
+}
+
+fn c18_main(args: &[String]) {
+    if let Some(spec) = par::worker_spec(args) {
+        worker_main(args, spec);
+        return;
+    }
+    let t0 = std::time::Instant::now();
+    par::install_quiet_panic_hook();
+    let tier = simcore::tier(args);
+    let root = simcore::root_seed(args);
+    let runs: u64 = simcore::arg_value(args, "--runs").and_then(|s| s.parse().ok()).unwrap_or(budget_runs(tier));
+    let nw = par::nworkers(args);
+    let scratch = lsp::scratch_root("c18-parent");
+    let mut wargs = args.to_vec();
+    wargs.push("--fp-dir".into());
+    wargs.push(scratch.to_string_lossy().to_string());
+    let results = par::run_workers(&wargs, nw);
+    let mut total = 0u64;
+    let mut counters: BTreeMap<String, u64> = BTreeMap::new();
+    let mut viols: Vec<(u64, u64, String, String)> = Vec::new();
+    let mut workloads: BTreeSet<String> = BTreeSet::new();
+    let mut samples: Vec<Value> = Vec::new();
+    for r in &results {
+        total += r["runs"].as_u64().unwrap_or(0);
+        report::add_counters(&mut counters, &r["counters"]);
+        for v in r["violations"].as_array().cloned().unwrap_or_default() {
+            viols.push((
+                v["index"].as_u64().unwrap_or(0),
+                v["seed"].as_u64().unwrap_or(0),
+                v["class"].as_str().unwrap_or("").to_string(),
+                v["detail"].as_str().unwrap_or("").to_string(),
+            ));
+        }
+        for w in r["workloads"].as_array().cloned().unwrap_or_default() {
+            workloads.insert(w.as_str().unwrap_or("").to_string());
+        }
+        for s in r["samples"].as_array().cloned().unwrap_or_default() {
+            if samples.len() < 3 {
+                samples.push(s);
+            }
+        }
+    }
+    // distinct interleavings
+    let mut fps: Vec<u64> = Vec::new();
+    for k in 0..nw {
+        if let Ok(b) = std::fs::read(scratch.join(format!("fp-{k}.bin"))) {
+            for c in b.chunks_exact(8) {
+                fps.push(u64::from_le_bytes([c[0], c[1], c[2], c[3], c[4], c[5], c[6], c[7]]));
+            }
+        }
+    }
+    fps.sort_unstable();
+    fps.dedup();
+    let distinct_interleavings = fps.len() as u64;
+
+    // violations: confirm + minimise the first few of every class
+    viols.sort();
+    let mut by_class: BTreeMap<String, Vec<(u64, u64, String)>> = BTreeMap::new();
+    for (i, s, c, d) in &viols {
+        by_class.entry(c.clone()).or_default().push((*i, *s, d.clone()));
+    }
+    let dir = scratch.join("min");
+    let mut out_viol: Vec<Violation> = Vec::new();
+    let mut class_counts: BTreeMap<String, u64> = BTreeMap::new();
+    for (class, list) in &by_class {
+        class_counts.insert(class.clone(), list.len() as u64);
+        let mut seen_runs = BTreeSet::new();
+        let mut taken = 0;
+        for (idx, seed, detail) in list {
+            if !seen_runs.insert(*idx) {
+                continue;
+            }
+            if taken >= 2 {
+                break;
+            }
+            taken += 1;
+            let (scn, st) = gen_scenario(*seed);
+            // re-run from the seed to obtain the explicit decision trace, then confirm that the trace alone reproduces it
+            let first = run_once(scn.clone(), RunMode::Random(*seed, st), dir.clone());
+            if !has_class(&first, class) {
+                simcore::harness_error(&format!("run {idx} (seed {seed}) did not reproduce class {class} when re-run from its seed: nondeterminism in the simulator"));
+            }
+            let decs = first.as_ref().map(|r| r.decisions.clone()).unwrap_or_default();
+            let second = run_once(scn.clone(), RunMode::Replay(decs.clone()), dir.clone());
+            if !has_class(&second, class) {
+                simcore::harness_error(&format!("run {idx} (seed {seed}): explicit trace did not reproduce class {class}"));
+            }
+            let mut budget = if tier == Tier::Quick { 600 } else { 3000 };
+            let (mscn, mdecs) = minimise(scn, decs, class, &dir, &mut budget);
+            let fin = run_once(mscn.clone(), RunMode::Replay(mdecs.clone()), dir.clone());
+            let mdetail = match &fin {
+                Ok(r) => r.findings.iter().find(|f| &f.class == class).map(|f| f.detail.clone()).unwrap_or_default(),
+                Err(e) => e.clone(),
+            };
+            let fingerprint = format!("{}|{}", class, shape_of(&mscn));
+            out_viol.push(Violation {
+                property: PROPERTY.into(),
+                class: class.clone(),
+                fingerprint,
+                seed: *seed,
+                detail: format!(
+                    "{mdetail}\n  minimised history: {:?}\n  pipe events: {:?}\n  original run index {idx}: {detail}\n  runs in this class: {}",
+                    mscn.events.iter().map(|e| e.short()).collect::<Vec<_>>(),
+                    mdecs,
+                    list.len()
+                ),
+                replay: json!({"engine": "lspsim", "expect_class": class, "scenario": mscn, "decisions": mdecs}),
+            });
+        }
+    }
+    let _ = std::fs::remove_dir_all(&scratch);
+    let wall = t0.elapsed().as_secs_f64();
+    let violating_runs: BTreeSet<u64> = viols.iter().map(|v| v.0).collect();
+    let coverage = json!({
+        "evaluations": total,
+        "distinct_nontrivial": distinct_interleavings,
+        "rule": "one evaluation = one seeded simulated session of the real tower-lsp serve loop + IncanLanguageServer: a generated client history (1-3 documents, open/change/close/re-open, 0-4 on-disk imports and 0-120 uniquely marked errors per version, unparsable and truncated versions, interleaved requests) under a seeded schedule of pipe-readiness events (IN n bytes readable / OUT n bytes writable). Non-trivial = at least one client message was released while the stdout writer was stalled, i.e. a later handler started while an earlier one was suspended at an await point; distinct = distinct FNV hash of (pipe-event sequence, sequence of server outputs).",
+        "samples": samples,
+        "runs_per_hour": if wall > 0.0 { (total as f64 / wall * 3600.0) as u64 } else { 0 },
+        "simulated_time": format!("{} executor steps and {} pipe events (the system has no timers; simulated time is counted in steps)", counters.get("executor_steps").copied().unwrap_or(0), counters.get("pipe_events").copied().unwrap_or(0)),
+        "fault_kinds_fired": {
+            "stalled_consumer (writer found no credit)": counters.get("fault_stalled_consumer_fired"),
+            "short_write": counters.get("fault_short_write_fired"),
+            "short_read": counters.get("fault_short_read_fired"),
+            "partial_frame_delivery": counters.get("fault_partial_frame_delivered"),
+            "multi_frame_burst": counters.get("fault_multi_frame_burst_delivered"),
+            "input_released_while_writer_stalled": counters.get("input_released_while_writer_stalled"),
+        },
+        "reach_probes": {
+            "runs_with_handler_overlap": counters.get("runs_with_handler_overlap"),
+            "runs_with_publish_order_ne_version_order": counters.get("runs_with_publish_order_ne_version_order"),
+            "distinct_history_shapes_among_overlapping_runs": workloads.len(),
+        },
+        "strategies": counters.iter().filter(|(k, _)| k.starts_with("strategy_")).map(|(k, v)| (k.clone(), json!(v))).collect::<BTreeMap<_, _>>(),
+        "violating_runs": violating_runs.len(),
+        "violation_classes": class_counts,
+        "workers": nw,
+        "real_vs_stub": {
+            "real": ["tower-lsp 0.17 Server::serve (codec, router, buffer_unordered(4), client channel)", "incan::lsp::IncanLanguageServer", "tokio::sync::RwLock", "lexer/parser/typechecker/import resolution reading a real tmpfs project tree"],
+            "stub": ["editor (scripted client model)", "stdin/stdout (simulated pipes with byte budgets)", "executor (single-threaded, polls the one serve future)"],
+            "not_exercised": ["#[tokio::main] wrapper in src/bin/lsp.rs"]
+        }
+    });
+    report::finish(Outcome {
+        property: PROPERTY.into(),
+        tier,
+        seed: root,
+        level: "exploration".into(),
+        coverage,
+        assumptions: vec![
+            "explores exactly the schedules the tower-lsp 0.17 transport can produce from I/O timing on stdin/stdout; yields caused by tokio's cooperative budget inside a runtime are not modelled".into(),
+            "bounds: <=3 documents, <=8 versions per session, <=2 sessions, <=4 on-disk dependency files".into(),
+            "a clean batch is evidence, not proof (seeded sampling)".into(),
+        ],
+        wall_s: wall,
+        violations: out_viol,
+    });
+}
+
+fn replay_main(args: &[String]) {
+    par::install_quiet_panic_hook();
+    let Some(path) = args.get(2) else { simcore::harness_error("usage: lspsim replay <file>") };
+    let text = std::fs::read_to_string(path).unwrap_or_else(|e| simcore::harness_error(&format!("read {path}: {e}")));
+    let doc: Value = serde_json::from_str(&text).unwrap_or_else(|e| simcore::harness_error(&format!("parse {path}: {e}")));
+    let rp = &doc["replay"];
+    let scn: Scenario = serde_json::from_value(rp["scenario"].clone()).unwrap_or_else(|e| simcore::harness_error(&format!("scenario: {e}")));
+    let decs: Vec<Dec> = serde_json::from_value(rp["decisions"].clone()).unwrap_or_else(|e| simcore::harness_error(&format!("decisions: {e}")));
+    let class = rp["expect_class"].as_str().unwrap_or("").to_string();
+    let scratch = lsp::scratch_root("c18-replay");
+    let rep = run_once(scn, RunMode::Replay(decs), scratch.join("p"));
+    let _ = std::fs::remove_dir_all(&scratch);
+    match &rep {
+        Ok(r) => println!("{}", serde_json::to_string_pretty(&r.summary).unwrap_or_default()),
+        Err(e) => println!("instance panicked: {e}"),
+    }
+    if has_class(&rep, &class) {
+        println!("VIOLATION property={PROPERTY} replay={path}");
+        println!("REPRODUCED class={class}");
+        std::process::exit(1);
+    }
+    println!("NOT-REPRODUCED class={class} (the tree no longer fails this replay)");
+    std::process::exit(0);
+}
+
+fn show_main(args: &[String]) {
+    par::install_quiet_panic_hook();
+    let root = simcore::root_seed(args);
+    let idx: u64 = simcore::arg_value(args, "--index").and_then(|s| s.parse().ok()).unwrap_or(0);
+    let seed = mix(root, PROPERTY, idx);
+    let (scn, st) = gen_scenario(seed);
+    println!("strategy: {st:?}");
+    if simcore::arg_flag(args, "--texts") {
+        for e in &scn.events {
+            if let Ev::Open { text, tag, .. } | Ev::Change { text, tag, .. } = e {
+                println!("---- {tag}\n{text}");
+            }
+        }
+    }
+    let scratch = lsp::scratch_root("c18-show");
+    let rep = run_once(scn, RunMode::Random(seed, st), scratch.join("p"));
+    let _ = std::fs::remove_dir_all(&scratch);
+    match rep {
+        Ok(r) => {
+            println!("{}", serde_json::to_string_pretty(&r.summary).unwrap_or_default());
+            println!("reach: {:?}", r.reach);
+        }
+        Err(e) => println!("panicked: {e}"),
+    }
+}
+
+/// Determinism self-test helper: one line per run with a digest of everything observable.
+fn digest_main(args: &[String]) {
+    par::install_quiet_panic_hook();
+    let root = simcore::root_seed(args);
+    let runs: u64 = simcore::arg_value(args, "--runs").and_then(|s| s.parse().ok()).unwrap_or(500);
+    let spec = par::worker_spec(args).unwrap_or(par::WorkerSpec { index: 0, count: 1 });
+    let scratch = lsp::scratch_root(&format!("c18-digest-{}", spec.index));
+    let mut i = spec.index;
+    while i < runs {
+        let seed = mix(root, PROPERTY, i);
+        let (scn, st) = gen_scenario(seed);
+        let rep = run_once(scn, RunMode::Random(seed, st), scratch.join("p"));
+        match rep {
+            Ok(r) => {
+                let s = r.summary.to_string().replace(&scratch.to_string_lossy().to_string(), "<ROOT>");
+                println!("{i} {:016x} {:016x} {}", r.interleaving_fp, fnv(s.as_bytes()), r.findings.len());
+            }
+            Err(e) => println!("{i} panic {e}"),
+        }
+        i += spec.count;
+    }
+    let _ = std::fs::remove_dir_all(&scratch);
+}
+
+fn main() {
+    let args: Vec<String> = std::env::args().collect();
+    match args.get(1).map(|s| s.as_str()) {
+        Some("c18") => c18_main(&args),
+        Some("replay") => replay_main(&args),
+        Some("show") => show_main(&args),
+        Some("digest") => digest_main(&args),
+        _ => simcore::harness_error("usage: lspsim c18|replay|show|digest ..."),
+    }
+}
